@@ -30,7 +30,8 @@ trap '[ -n "${VERIF_KEEP:-}" ] && echo "kept $OUT" || rm -rf "$OUT"' EXIT
 pkg=props
 mode=norace
 case "$ID" in
-  C06|C07|C19|C28|C29|C34) mode=race ;;
+  C06|C19|C28|C29|C34) mode=race ;;
+  C07) mode=plainrace ;;
   C01|C02|C04|C05|C16|C25) mode=both ;;
 esac
 tags=verif
@@ -87,6 +88,8 @@ case "$mode" in
   norace) run_phase main; phases=(main) ;;
   race)   run_phase main -race; phases=(main) ;;
   both)   run_phase race -race; run_phase main; phases=(race main) ;;
+  plainrace) # a plain pre-phase (scheduling-sensitive part the race detector perturbs), then the whole check under -race
+          VERIF_CARRY_OUT=$OUT/carry.json run_phase plain; VERIF_CARRY_IN=$OUT/carry.json run_phase main -race; phases=(plain main) ;;
 esac
 
 viol=0; inconc=0
